@@ -207,6 +207,30 @@ func (c *Config) stmt(st ast.Stmt) []ast.Stmt {
 	case *ast.RangeStmt:
 		return []ast.Stmt{&ast.RangeStmt{Key: x.Key, Value: x.Value, Tok: x.Tok, X: x.X, Body: c.block(x.Body)}}
 	case *ast.SwitchStmt:
+		if x.Tag == nil && x.Init == nil {
+			// a condition switch: clauses whose condition folds to false are dead, a clause whose condition folds to true
+			// ends the chain (it becomes the default)
+			n := &ast.BlockStmt{}
+			for _, cl := range x.Body.List {
+				cc, ok := cl.(*ast.CaseClause)
+				if !ok || len(cc.List) != 1 || !c.mentionsConst(cc.List[0]) {
+					n.List = append(n.List, cl)
+					continue
+				}
+				v, cond := c.fold(cc.List[0])
+				switch v {
+				case 0:
+					continue
+				case 1:
+					n.List = append(n.List, &ast.CaseClause{Body: cc.Body})
+				default:
+					n.List = append(n.List, &ast.CaseClause{List: []ast.Expr{cond}, Body: cc.Body})
+					continue
+				}
+				break
+			}
+			return []ast.Stmt{&ast.SwitchStmt{Body: c.caseBlock(n)}}
+		}
 		return []ast.Stmt{&ast.SwitchStmt{Init: x.Init, Tag: x.Tag, Body: c.caseBlock(x.Body)}}
 	case *ast.TypeSwitchStmt:
 		return []ast.Stmt{&ast.TypeSwitchStmt{Init: x.Init, Assign: x.Assign, Body: c.caseBlock(x.Body)}}
